@@ -274,7 +274,11 @@ def hash_ir(I, ir, lang, multi, tree="basic"):
         a_items.append(ir.item("Const", ir.const("KA", u32, 1)))
     files = [pd_of("a" if multi else "", fa, a_items, [("b", "Tb"), ("b", "Tc")] if multi else [])]
     b_items = [ir.item("Struct", ir.struct("Tb", [ir.field("o", u32)])), ir.item("Struct", ir.struct("Tc", [ir.field("p", u32)])),
-               ir.item("Struct", ir.struct("Renamed", [ir.field("q", u32)], renamed="Other", serde_rename=True))]
+               ir.item("Struct", ir.struct("Renamed", [ir.field("q", u32)], renamed="Other", serde_rename=True)),
+               # a chain alias -> alias -> struct used as the payload of a data enum (Go decides pointer-ness from it)
+               ir.item("Struct", ir.struct("Payload", [ir.field("w", u32)])), ir.item("Alias", ir.alias("Wrapped", ir.simple("Payload"))),
+               ir.item("Alias", ir.alias("Handle", ir.simple("Wrapped"))),
+               ir.item("Enum", ir.enum_alg("Message", [ir.v_unit("Idle"), ir.v_tuple("TwoHops", ir.simple("Handle")), ir.v_tuple("OneHop", ir.simple("Wrapped"))], tag="t", content="c"))]
     files.append(pd_of("b" if multi else "", "b." + EXT[lang] if multi else fa, b_items))
     return files
 
@@ -304,6 +308,7 @@ def hash_ir_glob(I, ir, lang, multi):
 def case_hash(case):
     lang, multi = case[0], case[1]
     tree = case[2] if len(case) > 2 else "basic"
+    cap = case[3] if len(case) > 3 else 2500
     P = prog()
     I = new_interp(P)
     ir = IR(P.layout)
@@ -325,19 +330,22 @@ def case_hash(case):
         return outs
 
     first = None
-    for kind, out, pc in I.explore(entry, max_paths=6000):
-        res["paths"] += 1
-        if kind == "panic":
-            res["violations"].append({"kind": "panic", "msg": out.msg}); break
-        if first is None:
-            first = out
-            if not all(o[1] for o in out) or not all(o[2] for o in out):
-                raise Unsupported("vacuity witness failed: generation produced %r" % (out,))
-        elif out != first:
-            d = [(a[0], a[2][-80:], b[2][-80:]) for a, b in zip(first, out) if a != b]
-            res["violations"].append({"kind": "hash-order-dependent", "diff": d[:1]})
-            break
-    if res["paths"] >= 6000:
+    try:
+        for kind, out, pc in I.explore(entry, max_paths=cap):
+            res["paths"] += 1
+            if kind == "panic":
+                res["violations"].append({"kind": "panic", "msg": out.msg}); break
+            if first is None:
+                first = out
+                if not all(o[1] for o in out) or not all(o[2] for o in out):
+                    raise Unsupported("vacuity witness failed: generation produced %r" % (out,))
+            elif out != first:
+                d = [(a[0], a[2][-80:], b[2][-80:]) for a, b in zip(first, out) if a != b]
+                res["violations"].append({"kind": "hash-order-dependent", "diff": d[:1]})
+                break
+    except Unsupported as e:
+        if "path budget" not in str(e):
+            raise
         res["capped"] = True
     return finish_case(I, res)
 
@@ -401,10 +409,11 @@ def run(rep, tier, only=None):
                     for j in range(k - 1):
                         perm = list(range(k)); perm[j], perm[j + 1] = perm[j + 1], perm[j]
                         cases.append((ms, tuple(perm), multi))
-    hcases = [(l, m, "basic") for l in LANGS for m in (False, True)] + [(l, True, "glob") for l in LANGS]
+    hcap = 600 if tier == "quick" else 4000
+    hcases = [(l, m, "basic", hcap) for l in LANGS for m in (False, True)] + [(l, True, "glob", hcap) for l in LANGS]
     rep.bounds = {"fold": "arrival sequences of k files of one crate (+ a second crate in folder mode), one item per file of kind struct/enum/alias/const/(struct importing a foreign type), every multiset of kinds; "
                           "k=2,3 (quick) and 4 (thorough): every permutation against the identity; k=5,6 (thorough): adjacent transpositions on a seed-rotated subset; item names symbolic: T + one of the first k letters (three letters for k >= 5)",
-                  "hash": "two fixed trees per language (basic: imports + a serde-renamed type, both modes; glob: two crates defining the same Rust name with different serde renames, a third crate importing one by glob and one by name, folder mode); every iteration order of every iterated HashMap/HashSet (sizes <= 4)"}
+                  "hash": "two fixed trees per language (basic: imports, a serde-renamed type, an alias -> alias -> struct chain used as a data-enum payload, both modes; glob: two crates defining the same Rust name with different serde renames, a third crate importing one by glob and one by name, folder mode); every iteration order of every iterated HashMap/HashSet with up to 4 entries, three representative orders for larger ones, at most %d paths per case (a case that hits the cap is reported as not exhaustive)" % hcap}
     rep.outside = ["the directory walk itself (ignore crate) and the crossbeam channel: the collector sees an arbitrary sequence", "thread count (it only influences the arrival order)",
                    "ordering of error reports"]
     rep.assumptions = ["crossbeam Receiver iteration = the arrival sequence", "hash containers iterate in an arbitrary order chosen per iteration"]
@@ -582,7 +591,9 @@ def native_hash(d, lang, multi, tree_kind="basic"):
         return False, "40 runs of the real binary gave identical bytes", None
     consts_ok = lang not in ("kotlin", "swift", "scala")
     a = "use b::{Tb, Tc};\n#[typeshare]\npub struct Sa { pub x: Tb, pub y: Tc }\n#[typeshare]\npub enum Ea { V }\n#[typeshare]\npub type Aa = Renamed;\n" + ("#[typeshare]\npub const KA: u32 = 1;\n" if consts_ok else "")
-    b = "#[typeshare]\npub struct Tb { pub o: u32 }\n#[typeshare]\npub struct Tc { pub p: u32 }\n#[typeshare]\n#[serde(rename = \"Other\")]\npub struct Renamed { pub q: u32 }\n"
+    b = ("#[typeshare]\npub struct Tb { pub o: u32 }\n#[typeshare]\npub struct Tc { pub p: u32 }\n#[typeshare]\n#[serde(rename = \"Other\")]\npub struct Renamed { pub q: u32 }\n"
+         "#[typeshare]\npub struct Payload { pub w: u32 }\n#[typeshare]\npub type Wrapped = Payload;\n#[typeshare]\npub type Handle = Wrapped;\n"
+         "#[typeshare]\n#[serde(tag = \"t\", content = \"c\")]\npub enum Message { Idle, TwoHops(Handle), OneHop(Wrapped) }\n")
     tree = {"a": {"lib.rs": a}, "b": {"lib.rs": b}}
     seen = {}
     for i in range(24):
